@@ -43,7 +43,12 @@ func (r *m13pRec) res() error {
 	}
 	return nil
 }
-func (r *m13pRec) log(c m13pCall) { c.data = append([]byte(nil), c.data...); r.calls = append(r.calls, c) }
+func (r *m13pRec) log(c m13pCall) {
+	// one request/reply exchange on the client's single connection
+	vAccess("wr", "client.conn")
+	c.data = append([]byte(nil), c.data...)
+	r.calls = append(r.calls, c)
+}
 func (r *m13pRec) List() ([]*sshagent.Key, error) {
 	r.log(m13pCall{op: "List"})
 	return r.keys, r.res()
@@ -110,6 +115,10 @@ func H13_passthrough() {
 	op := ops[vChoose(len(ops), "operation")]
 	added := sshagent.AddedKey{Comment: "c", LifetimeSecs: vNondetU32("lifetime"), ConfirmBeforeUse: vNondetBool("confirm")}
 	vFreeze("C13.caller-buffers-left-alone", buf)
+	// the extension requests of this client use the same connection under
+	// the client's lock: so must these (its mutex is "client.<field>")
+	vWatchAll(y, "client")
+	vTraceReset()
 	var gotErr error
 	var gotSig *ssh.Signature
 	var gotKeys []*sshagent.Key
@@ -137,6 +146,8 @@ func H13_passthrough() {
 	case "Extension":
 		gotExt, gotErr = y.Extension("ext@x", buf)
 	}
+	vTraceCheckAtomic(op, "client.*")
+	vTraceEmit("client." + op)
 	vCheckFrozen()
 	vThaw()
 	vAssert(vEqBytes(buf, buf0), "C13.caller-buffers-left-alone")
